@@ -1,25 +1,28 @@
 #!/bin/bash
-# usage: tools/seed_eval.sh <Cxx> <i> [check ids...]
-# 1. confirms the seeded change independently in a scratch worktree (suite passes, demo fails with / passes without)
-# 2. runs the given checks (default: the property's own) against /repo with the patch applied, then reverts
-# 3. stores it under /verif/seeded/<Cxx>-<i>/
+# usage: tools/seed_eval.sh <Cxx> <i> [check ids...]      env: SEED_SRC (default /tmp/seeded), SEED_OFFSET (default 0), TIER
+# 1. confirms the seeded change <SEED_SRC>/<Cxx>/patch<i>.diff independently in a scratch worktree
+#    (applies, builds, vets, existing suite passes; demo fails with / passes without the change)
+# 2. runs the given checks (default: the property's own) against a scratch worktree with the patch applied
+#    (tools/mutant_matrix.sh; /repo itself is never touched, so several evaluations can run in parallel)
+# 3. stores it under /verif/seeded/<Cxx>-<i+SEED_OFFSET>/ (patch.diff, demo_test.go, meta.json)
 export GOFLAGS=-mod=mod GOPROXY=off GOSUMDB=off GOTOOLCHAIN=local
 ID="$1"; I="$2"; shift 2
 CHECKS="${@:-$ID}"
-SRC=/tmp/seeded/$ID
+SRC=${SEED_SRC:-/tmp/seeded}/$ID
+N=$(( I + ${SEED_OFFSET:-0} ))
 PATCH=$SRC/patch$I.diff
 DEMO=$SRC/demo${I}_test.go
 [ -f "$PATCH" ] || { echo "no patch $PATCH"; exit 2; }
-WT=/tmp/confirm-$ID-$I
+WT=/tmp/confirm-$ID-$N
 git -C /repo worktree remove --force $WT 2>/dev/null; rm -rf $WT
 git -C /repo worktree add -q --detach $WT HEAD || exit 2
 applies=no; suite=no; demo_with=unknown; demo_without=unknown
-if git -C $WT apply $PATCH 2>/tmp/apply.err; then applies=yes; else cat /tmp/apply.err; fi
+if git -C $WT apply $PATCH 2>/tmp/apply.$ID.$N.err; then applies=yes; else cat /tmp/apply.$ID.$N.err; fi
 if [ $applies = yes ]; then
-  (cd $WT && go build ./... && go vet ./... >/dev/null 2>&1 && go test -vet=off -count=1 ./... >/tmp/suite.$ID.$I.log 2>&1) && suite=yes
+  (cd $WT && go build ./... && go vet ./... >/dev/null 2>&1 && go test -vet=off -count=1 ./... >/tmp/suite.$ID.$N.log 2>&1) && suite=yes
   if [ -f "$DEMO" ]; then
     for variant in with without; do
-      D=/tmp/demo-confirm-$ID-$I-$variant; rm -rf $D; mkdir -p $D
+      D=/tmp/demo-confirm-$ID-$N-$variant; rm -rf $D; mkdir -p $D
       target=$WT; [ $variant = without ] && target=/repo
       printf 'module demo\n\ngo 1.23.0\n\nrequire github.com/xjslang/xjs v0.0.0\n\nreplace github.com/xjslang/xjs => %s\n' $target > $D/go.mod
       cp /repo/go.sum $D/; cp $DEMO $D/demo_test.go
@@ -30,27 +33,28 @@ if [ $applies = yes ]; then
   fi
 fi
 git -C /repo worktree remove --force $WT 2>/dev/null; rm -rf $WT
-echo "CONFIRM $ID-$I applies=$applies suite_passes_with_change=$suite demo_with_change=$demo_with demo_without_change=$demo_without"
+echo "CONFIRM $ID-$N applies=$applies suite_passes_with_change=$suite demo_with_change=$demo_with demo_without_change=$demo_without"
 results=""
 if [ $applies = yes ] && [ $suite = yes ]; then
-  results=$(/verif/tools/try_mutant.sh $PATCH $CHECKS 2>&1)
+  results=$(/verif/tools/mutant_matrix.sh $PATCH $ID-$N $CHECKS 2>&1)
   echo "$results" | cut -c1-420
 fi
-OUT=/verif/seeded/$ID-$I; mkdir -p $OUT
+OUT=/verif/seeded/$ID-$N; mkdir -p $OUT
 cp $PATCH $OUT/patch.diff; [ -f "$DEMO" ] && cp $DEMO $OUT/demo_test.go
-python3 - "$ID" "$I" "$applies" "$suite" "$demo_with" "$demo_without" "$CHECKS" <<PY
+RESULTS="$results" python3 - "$ID" "$N" "$applies" "$suite" "$demo_with" "$demo_without" "$CHECKS" "$I" "$SRC" "${TIER:-quick}" <<'PY'
 import json,sys,re,os
-ID,I,applies,suite,dw,dwo,checks=sys.argv[1:8]
-res=open('/dev/stdin').read() if False else """$results"""
+ID,N,applies,suite,dw,dwo,checks,I,SRC,tier=sys.argv[1:11]
+res=os.environ.get("RESULTS","")
 det={}
 for line in res.splitlines():
-    m=re.match(r'== (C\d+) rc=(\d+) violations=(\d+) :: (.*)',line)
+    m=re.match(r'\S+ (C\d+) rc=(\d+) violations=(\d+) ?(.*)',line)
     if m: det[m.group(1)]={"exit":int(m.group(2)),"violation_lines":int(m.group(3)),"first_classes":m.group(4)[:600]}
 notes=""
-p=f"/tmp/seeded/{ID}/NOTES.md"
+p=f"{SRC}/NOTES.md"
 if os.path.exists(p): notes=open(p).read()
-meta={"property":ID,"change":int(I),"confirmed":{"patch_applies":applies=="yes","existing_suite_passes_with_change":suite=="yes","demo_fails_with_change":dw=="fail","demo_passes_without_change":dwo=="pass"},
- "what_was_run":f"scratch worktree of /repo HEAD: git apply patch.diff; go build ./... && go vet ./... && go test -vet=off -count=1 ./...; demo_test.go in a scratch module replacing xjs with the patched worktree (must fail) and with /repo (must pass); then git -C /repo apply patch.diff; bin/check <id> quick for {checks}; git -C /repo checkout -- .",
- "checks_quick":det,"author_notes":notes}
-json.dump(meta,open(f"/verif/seeded/{ID}-{I}/meta.json","w"),indent=1)
+meta={"property":ID,"change":int(N),"source":f"{SRC}/patch{I}.diff (sub-agent, given only the property text and a scratch worktree)",
+ "confirmed":{"patch_applies":applies=="yes","existing_suite_passes_with_change":suite=="yes","demo_fails_with_change":dw=="fail","demo_passes_without_change":dwo=="pass"},
+ "what_was_run":f"scratch worktree of /repo HEAD: git apply patch.diff; go build ./... && go vet ./... && go test -vet=off -count=1 ./...; demo_test.go in a scratch module replacing xjs with the patched worktree (must fail) and with /repo (must pass); then bin/check <id> {tier} for {checks} with VERIF_REPO pointing at a scratch worktree that has the patch applied (tools/mutant_matrix.sh)",
+ "checks_"+tier:det,"author_notes":notes}
+json.dump(meta,open(f"/verif/seeded/{ID}-{N}/meta.json","w"),indent=1)
 PY
